@@ -97,7 +97,13 @@ def run(ctx):
     movegen.check_generators(ctx, f, L)
     movegen.check_king_generator(ctx, f, L)
     # halfmove_clock getter is the field (through lifting) -- and the in-check atom reads the checkers getter
-    ctx.assumptions.append("has-move is exact only relative to C01 (generators deliver exactly the legal moves) and C03 (checkers field)")
+    # has-move is exact only if the generators deliver exactly the legal moves: C01's generator specification (with the
+    # play/track rules it stands on) is re-run here
+    from . import c01
+    expl_ = ctx.explanation
+    c01.run(ctx)
+    ctx.explanation = expl_
+    ctx.assumptions.append("has-move is exact relative to C01 (re-run above) and C03 (checkers field, inside C01)")
 
 
 def classify_clock(e, v, clock):
